@@ -73,7 +73,38 @@ def run(ctx):
                 continue
             seen.add(a.key())
             ac.append((a, rng.choice([1, 2, 3, 4, 0.5, 1.5, 12, 22, 0.25])))
-        items.append({"id": i, "variants": variants(rng, ac, 5), "T": "T1" if i % 11 == 0 else None, "touch": i % 2 == 1})
+        it = {"id": i, "variants": variants(rng, ac, 5), "T": "T1" if i % 11 == 0 else None, "touch": i % 2 == 1}
+        if i % 10 == 3 and len(ac) >= 2:
+            # counts that carry floating-point round-off (100 * 0.07 = 7.000000000000001): the Hill form keeps them as they are
+            k = rng.choice([100, 3, 7, 10])
+            cs = [rng.choice([7, 29, 3, 57, 0.7, 1.1]) for _ in ac]
+            it["variants"] = [["mul", k, ["seq", [[c / float(k), [a.z, a.a, a.q]] for (a, _), c in zip(ac, cs)]]],
+                              ["mul", k, ["seq", [[c / float(k), [a.z, a.a, a.q]] for (a, _), c in reversed(list(zip(ac, cs)))]]]]
+            it["noparse"] = True          # (printing rounds such counts to six digits: the printed form is another formula)
+        if i % 10 == 7 and len(ac) >= 2:
+            # the same species from two tables are different atoms: none is lost, each table's part is ordered
+            cut = rng.randint(1, len(ac) - 1)
+            part = lambda xs: ["seq", [[c, [a.z, a.a, a.q]] for a, c in xs]]
+            both = ac[:cut] + ac          # the first atoms also appear in the second table
+            sh1, sh2 = list(ac[:cut]), list(ac)
+            rng.shuffle(sh1)
+            rng.shuffle(sh2)
+            # (one variant: the order between the same species of two tables is not specified, only that none is lost)
+            it["variants"] = [rng.choice([["add", ["intab", "T1", part(ac[:cut])], ["intab", None, part(ac)]],
+                                          ["add", ["intab", None, part(sh2)], ["intab", "T1", part(sh1)]]])]
+            it["T"] = None
+            it["noparse"] = True
+        items.append(it)
+    # the neutron (symbol 'n') sorts after every chemical symbol, also next to nitrogen
+    neutron = atomsmod.Atom("n", 0)
+    for i in range(40 if quick else 400):
+        others = rot.distinct(rng.randint(1, 3))
+        ats = [neutron, atomsmod.Atom("N", 7)] + [a for a in others if a.z not in (0, 7)]
+        if i % 3 == 0:
+            ats.append(atomsmod.Atom("N", 7, 15))
+        ac = [(a, rng.choice([1, 2, 3, 0.5])) for a in ats]
+        vs = [v for v in variants(rng, ac, 5)]
+        items.append({"id": n + i, "variants": vs, "T": None, "touch": i % 2 == 1, "noparse": True})
     nb = 32
     batches = [items[i::nb] for i in range(nb)]
     outs = forkrun.map_fresh("ptv.formexec", "observe_hill", [{"items": b} for b in batches])
